@@ -40,14 +40,16 @@ def impl_run(args):
 
     shape, ranges = args[0], args[1]
     meta = len(args) > 2 and args[2] == "meta"
+    k = args[3] if len(args) > 3 and args[2] == "strided" else 1   # element stride of the flat shard (1 = contiguous)
     n = math.prod(shape)
     # huge shapes (numel up to 2^44) run on the meta device: views, offsets and shapes are real, there is no storage to compare
-    base = torch.empty(n + 2, device="meta") if meta else torch.arange(n + 2, dtype=torch.float32)
+    base = torch.empty(n + 2, device="meta") if meta else torch.arange(k * (n + 2), dtype=torch.float32)
+    flat = base[::k] if k > 1 else base    # a flat, uniformly strided (non-contiguous for k > 1) view: still "the given shard"
     res = []
     for fn in (FSDPDistributor._split_tensor_block_recovery, HSDPDistributor._split_tensor_block_recovery):
         per = []
         for s, e in ranges:
-            shard = base[s:e]
+            shard = flat[s:e]
             try:
                 out = fn(shard, torch.Size(shape), s, e)
             except Exception as ex:  # noqa
@@ -56,8 +58,12 @@ def impl_run(args):
             ok = True
             pieces = []
             for p in out:
-                o = p.storage_offset() - s
-                if meta:
+                o = p.storage_offset() - shard.storage_offset() if k > 1 else p.storage_offset() - s
+                if k > 1:      # strided shard: same storage, offset a multiple of the stride, reads the right logical elements
+                    ok = ok and p.untyped_storage().data_ptr() == base.untyped_storage().data_ptr() and o % k == 0
+                    o //= k
+                    ok = ok and bool(torch.equal(p.reshape(-1), flat[s + o: s + o + p.numel()]))
+                elif meta:
                     ok = ok and p.is_contiguous() and p.device.type == "meta"
                 else:
                     ok = ok and p.untyped_storage().data_ptr() == base.untyped_storage().data_ptr() and p.is_contiguous()
@@ -69,7 +75,7 @@ def impl_run(args):
 
 
 def coq_pieces(pieces) -> str:
-    return "[" + "; ".join(f"mk {o} {l} [{'; '.join(map(str, sh))}]" for o, l, sh in pieces) + "]"
+    return "[" + "; ".join(f"mk {coq_Z(o)} {l} [{'; '.join(map(str, sh))}]" for o, l, sh in pieces) + "]"
 
 
 HEADER = """From Coq Require Import ZArith List String.
@@ -124,21 +130,33 @@ def run(ck: Check) -> None:
         e = min(n, max(s, ck.rng.randint(0, n // r) * r + ck.rng.choice((0, 0, 1, ck.rng.randint(0, r)))))
         huge.append((sh, [(s, e)], "meta"))
     work += huge
+    # flat but NON-contiguous shards (element stride 2 / 3 of a larger buffer): the pieces must still be views of the given shard
+    smax = 16 if thorough else 12
+    strided = [(sh, [(s, e) for s in range(math.prod(sh) + 1) for e in range(s, math.prod(sh) + 1)], "strided", k)
+               for sh in shapes_upto(smax, 4) for k in (2, 3)]
+    for _ in range(2000 if thorough else 300):
+        order = ck.rng.randint(1, 4)
+        sh = tuple(ck.rng.choice((1, 2, 3, 4, 5, 7)) for _ in range(order))
+        n = math.prod(sh)
+        s = ck.rng.randint(0, n)
+        strided.append((sh, [(s, ck.rng.randint(s, n))], "strided", ck.rng.choice((2, 3, 5))))
+    work += strided
     with mp.get_context("fork").Pool(16) as pool:
         results = pool.map(impl_run, work, chunksize=8)
 
     # build case files: one bool per (copy, shape, s, e)
     cases = []   # (shape, s, e, copy, ok, pieces)
-    for (sh, ranges, *_), res in zip(work, results):
+    for (sh, ranges, *rest), res in zip(work, results):
+        k = rest[1] if len(rest) > 1 and rest[0] == "strided" else 1
         for ci, per in enumerate(res):
             for (s, e), (ok, pieces) in zip(ranges, per):
-                cases.append((sh, s, e, ci, ok, pieces))
+                cases.append((sh, s, e, ci, ok, pieces, k))
     sources = {}
     per_file = 1500
     for fi, chunk in enumerate(common.chunks(cases, per_file)):
         lines = [HEADER, "Definition results : list bool := ["]
         items = []
-        for sh, s, e, ci, ok, pieces in chunk:
+        for sh, s, e, ci, ok, pieces, k in chunk:
             shs = "[" + "; ".join(map(str, sh)) + "]"
             if isinstance(ok, str):
                 items.append("false")
@@ -177,7 +195,7 @@ def run(ck: Check) -> None:
         srcs = {}
         for fi, chunk in enumerate(common.chunks(bad, 500)):
             items = []
-            for sh, s, e, ci, ok, pieces in chunk:
+            for sh, s, e, ci, ok, pieces, k in chunk:
                 shs = "[" + "; ".join(map(str, sh)) + "]"
                 items.append("false" if isinstance(ok, str) else f"andb {coq_bool(ok)} (C15_checkb_strict {shs} {s} {e} {coq_pieces(pieces)})")
             srcs[f"c15_chk_{fi:04d}"] = HEADER + "Definition results : list bool := [" + ";\n".join(items) + "].\nEval vm_compute in show_bools results.\n"
@@ -186,19 +204,19 @@ def run(ck: Check) -> None:
         failing = [c for c, b in zip(bad, flat2) if b != "T"]
         if failing:
             failing.sort(key=lambda c: (math.prod(c[0]), len(c[0]), c[2] - c[1]))
-            sh, s, e, ci, ok, pieces = failing[0]
-            ck.report(None, f"{['FSDP', 'HSDP'][ci]} copy violates C15 on shape={list(sh)} start={s} end={e}: returned {pieces} (views_ok={ok})",
+            sh, s, e, ci, ok, pieces, k = failing[0]
+            ck.report(None, f"{['FSDP', 'HSDP'][ci]} copy violates C15 on shape={list(sh)} start={s} end={e}{f' (flat shard with element stride {k})' if k > 1 else ''}: returned {pieces} (views_ok={ok})",
                       {"kind": "property-fails", "copy": ["fsdp", "hsdp"][ci], "shape": list(sh), "start": s, "end": e,
-                       "impl_pieces": pieces, "views_ok": ok, "n_failing": len(failing), "predicate": "C15_checkb_strict (ordered partition, genuine slabs, minimal count) and views"})
+                       "impl_pieces": pieces, "views_ok": ok, "shard_stride": k, "n_failing": len(failing), "predicate": "C15_checkb_strict (ordered partition, genuine slabs, minimal count) and views"})
         else:
-            sh, s, e, ci, ok, pieces = bad[0]
+            sh, s, e, ci, ok, pieces, k = bad[0]
             ck.report(None, f"model/implementation correspondence broken ({len(bad)} cases, first: copy={ci} shape={list(sh)} [{s},{e})) but the implementation output still passes C15_checkb",
                       {"kind": "correspondence", "broken": "SplitRecovery.agree (model rec vs implementation)", "shape": list(sh), "start": s, "end": e, "impl_pieces": pieces,
                        "theorems_not_transferring": ["C15_split_partitions_in_order", "C15_split_pieces_are_slabs", "C15_split_minimal"]}, no_failing_input=True)
 
-    nontriv = {(sh, s, e) for sh, s, e, ci, ok, pieces in cases if len(pieces) >= 2}
+    nontriv = {(sh, s, e) for sh, s, e, ci, ok, pieces, k in cases if len(pieces) >= 2}
     hist = {}
-    for sh, s, e, ci, ok, pieces in cases:
+    for sh, s, e, ci, ok, pieces, k in cases:
         hist[len(pieces)] = hist.get(len(pieces), 0) + 1
     ck.coverage.update({
         "evaluations": len(cases) + nonflat,
@@ -223,11 +241,11 @@ def run(ck: Check) -> None:
             "huge shapes on the meta device (numel 2^31..2^44)": len(huge),
             "huge shapes with numel >= 2^40": sum(1 for w in huge if math.prod(w[0]) >= 1 << 40),
             "non-flat shards (must raise ValueError)": nonflat,
+            "flat NON-contiguous shards (element stride 2 / 3 / 5; views of the given shard, logical offsets vs the model)": sum(len(w[1]) for w in strided),
             "random large shapes (numel <= 20000)": len(rnd),
         },
         "not_exercised": [
             "storage identity of the views for the huge shapes (meta tensors have no storage; offsets, sizes, contiguity and device are compared)",
-            "non-contiguous 1-D shards (FSDP flat-parameter shards are contiguous; the property speaks of 'the given shard' as a flat range)",
             "shard dtypes other than float32 (the routine only narrows and views)",
             "start > end, negative start or end > numel (outside the quantifier 0 <= start <= end <= numel; the FSDP copy asserts)",
             "CUDA tensors",
@@ -244,8 +262,11 @@ def replay(obj) -> bool:
     from distributed_shampoo.utils.shampoo_hsdp_distributor import HSDPDistributor
     fn = (FSDPDistributor if obj.get("copy") == "fsdp" else HSDPDistributor)._split_tensor_block_recovery
     sh, s, e = obj["shape"], obj["start"], obj["end"]
-    base = torch.arange(math.prod(sh) + 2, dtype=torch.float32)
-    out = fn(base[s:e], torch.Size(sh), s, e)
-    got = [[p.storage_offset() - s, p.numel(), list(p.shape)] for p in out]
+    k = obj.get("shard_stride", 1)
+    base = torch.arange(k * (math.prod(sh) + 2), dtype=torch.float32)
+    shard = base[::k][s:e]
+    out = fn(shard, torch.Size(sh), s, e)
+    got = [[(p.storage_offset() - shard.storage_offset()) // k, p.numel(), list(p.shape)] for p in out]
+    print("pieces share the shard's storage:", [p.untyped_storage().data_ptr() == base.untyped_storage().data_ptr() for p in out])
     print("implementation returns", got, "recorded", obj.get("impl_pieces"))
     return True
